@@ -45,6 +45,11 @@ def main():
     try:
         import mosaik
         out["mosaik_file"] = mosaik.__file__
+        try:
+            from loguru import logger
+            logger.remove()
+        except Exception:
+            pass
         target = load(req)
         fn = getattr(target, "native_call", None) or getattr(target, "native_check", None)
         if req["mode"] == "model":
